@@ -677,7 +677,17 @@ func (d *Driver) judgeC09() {
 			}
 		}
 		// DeleteKey by the owner: record gone at return
-		if a.Kind == AStopCtx && a.Act.DeleteKey && a.WasLeaderAtInv {
+		// (two stop calls of one object that overlap in time split the work between them in a way
+		// the statement does not pin down: the DeleteKey clause is judged for calls that ran alone)
+		alone := true
+		for _, b := range d.h.Apis {
+			if b != a && b.Inst == a.Inst && b.Gen == a.Gen && (b.Kind == AStop || b.Kind == AStopCtx) && b.SInv <= a.SRet && (b.TRet < 0 || b.SRet >= a.SInv) {
+				alone = false
+			}
+		}
+		if !alone {
+			d.skip("C09", "deletekey-concurrent-stop-calls")
+		} else if a.Kind == AStopCtx && a.Act.DeleteKey && a.WasLeaderAtInv {
 			// was X the owner at entry?
 			// judged only if the deletion the call issued was not hit by an injected store fault
 			// (the statement cannot promise the record gone when the store does not answer)
